@@ -866,7 +866,10 @@ def _cdf_request(spec, ts):
     F = np.array(spec["F"], float)
     d0 = np.zeros(n) if spec["d0"] is None else np.array(spec["d0"], float)
     v0 = np.zeros(n) if spec["v0"] is None else np.array(spec["v0"], float)
-    return " ".join(["cdfa", str(nn), str(nt), str(spec["order"])] + [_bl(getattr(pc, c)) for c in
+    # `cdfx` = `cdfa` plus the acceleration recovery (`cdfAcc`: invm = 1/m or m = None, full damping = bo + diag b)
+    mpart = ["0"] if spec["m"] is None else ["1", _bl(np.array(spec["m"], float)[nonrf])]
+    return " ".join(["cdfx", str(nn), str(nt), str(spec["order"])] + mpart + [_bl(np.diag(Bfull)[nonrf]),
+                    _bl(np.array(spec["k"], float)[nonrf])] + [_bl(getattr(pc, c)) for c in
                     ("F", "G", "A", "B", "Fp", "Gp", "Ap", "Bp")] + [_bl(bo), _bl(F[nonrf].T),
                                                                    _bl(d0[nonrf]), _bl(v0[nonrf])])
 
@@ -891,17 +894,26 @@ def _cdf_compare(ctx, spec, ts, impl, r, tag=""):
         return False
     x = _unbits(r.split()[1:])
     nn = len(nonrf)
-    if x.size != nn * nn + 2 * nn * nt:
+    if x.size != nn * nn + 3 * nn * nt:
         ctx.disagree("cdf" + tag, spec, "history", "bad-size")
         return False
     al = x[: nn * nn].reshape(nn, nn)
-    x = x[nn * nn:].reshape(2, nt, nn)
+    x = x[nn * nn:].reshape(3, nt, nn)
     sd = max(float(np.abs(impl["d"]).max()), 1e-300)
     sv = max(float(np.abs(impl["v"]).max()), sd / spec["h"] * 1e-3, 1e-300)
     ok = _cmp(ctx, "cdf-alpha" + tag, spec, "alpha", np.asarray(ts.pc.alpha, float), al,
               max(float(np.abs(al).max()), float(np.abs(ts.pc.alpha).max()), 1e-300))
     ok = _cmp(ctx, "cdf-d" + tag, spec, "d", impl["d"][nonrf], x[0].T, sd) and ok
     ok = _cmp(ctx, "cdf-v" + tag, spec, "v", impl["v"][nonrf], x[1].T, sv) and ok
+    # acceleration recovery: a = invm (P - C v - K d); scale = the largest of the three force terms over m
+    mm = np.ones(nn) if spec["m"] is None else np.array(spec["m"], float)[nonrf]
+    Bn = np.array(spec["b"], float)[np.ix_(nonrf, nonrf)]
+    kk = np.array(spec["k"], float)[nonrf]
+    P = np.array(spec["F"], float)[nonrf]
+    terms = [P, Bn @ impl["v"][nonrf], kk[:, None] * impl["d"][nonrf]]
+    sa = max(max(float(np.abs(t / mm[:, None]).max()) for t in terms), 1e-300)
+    ctx.count("cdf:accel-model")
+    ok = _cmp(ctx, "cdf-a" + tag, spec, "a", impl["a"][nonrf], x[2].T, sa) and ok
     return ok
 
 
@@ -923,6 +935,7 @@ def _corr_cdf(ctx):
         req.append(_cdf_request(spec, ts))
         impls.append((spec, impl, cls, ts))
     rep = drv.ask(req)
+    f2xjobs = []
     for (spec, impl, cls, ts), r in zip(impls, rep):
         n, nt = spec["n"], spec["nt"]
         nonrf, rf = _parts(spec)
@@ -938,11 +951,47 @@ def _corr_cdf(ctx):
         ctx.count("cdf:alpha-from-model")
         ctx.count("cdf:layout=" + spec.get("layout", "C"))
         _cdf_compare(ctx, spec, ts, impl, r)
+        if spec["order"] == 1 and ctx.evaluations % 3 == 0:
+            f2xjobs.append(_f2x_job(ctx, spec, ts))
         if nt >= 2 and ctx.evaluations % 4 == 0:
             ctx.count("cdf:reused-solver")
             bad = cdf_reuse(spec, cls)
             if bad:
                 ctx.disagree("cdf-reused-solver", spec, {"what": bad[0], "difference": bad[1], "scale": bad[2]}, "the history of a fresh solver object")
+    for job, r in zip(f2xjobs, drv.ask([j[4] for j in f2xjobs])):
+        _f2x_compare(ctx, job, r)
+
+
+def _f2x_job(ctx, spec, ts):
+    """get_f2x(phi, velo) of a cd-as-force solver against the model's `cdfGetF2x` (alpha by the model)"""
+    rng = np.random.default_rng(abs(hash(json.dumps(spec["F"][0][:3]))) % (2**32))
+    n = spec["n"]
+    nonrf, rf = _parts(spec)
+    r = int(rng.integers(1, 4))
+    phi = rng.standard_normal((r, n))
+    pc = ts.pc
+    nn = len(nonrf)
+    bo = np.array(spec["b"], float)[np.ix_(nonrf, nonrf)].copy()
+    bo[np.arange(nn), np.arange(nn)] = 0.0
+    krf = np.array(spec["k"], float)[rf] if rf else np.zeros(0)
+    line = " ".join(x for x in ["f2x", str(nn), str(r), str(len(rf)), _bl(pc.B), _bl(pc.Bp), _bl(bo), _bl(phi[:, nonrf]),
+                                _bl(krf), _bl(phi[:, rf]) if rf else ""] if x != "")
+    return spec, r, np.array(ts.get_f2x(phi, False)), np.array(ts.get_f2x(phi, True)), line
+
+
+def _f2x_compare(ctx, job, rep):
+    spec, r, fd, fv, _ = job
+    ctx.count("cdf:f2x-model")
+    if not rep.startswith("ok"):
+        ctx.disagree("cdf-f2x", spec, "flex", rep[:40])
+        return
+    x = _unbits(rep.split()[1:])
+    if x.size != 2 * r * r:
+        ctx.disagree("cdf-f2x", spec, "flex", "bad-size")
+        return
+    x = x.reshape(2, r, r)
+    for name, impl, mod in (("disp", fd, x[0]), ("velo", fv, x[1])):
+        _cmp(ctx, "cdf-f2x-" + name, spec, "flex", impl, mod, max(float(np.abs(mod).max()), float(np.abs(impl).max()), 1e-300))
 
 
 def _smooth_case(rng, solver, balanced):
@@ -982,9 +1031,9 @@ def _cdf_parse(r, nn, nt):
     if not r.startswith("ok"):
         return None
     x = _unbits(r.split()[1:])
-    if x.size != nn * nn + 2 * nn * nt:
+    if x.size != nn * nn + 3 * nn * nt:
         return None
-    y = x[nn * nn:].reshape(2, nt, nn)
+    y = x[nn * nn:].reshape(3, nt, nn)
     return x[: nn * nn].reshape(nn, nn), y[0].T, y[1].T
 
 
@@ -1132,8 +1181,134 @@ def _corr_sequences(ctx):
         _z_compare(ctx, "newmark-seq-z-" + how, pspec, zimpl, r)
 
 
+def _dyadic_ok(x):
+    """is the rational x a finite double?  (odd part of the numerator below 2^53, denominator a power of two, exponent in
+    the normal range)"""
+    if x == 0:
+        return True
+    d = x.denominator
+    if d & (d - 1):
+        return False
+    n = abs(x.numerator)
+    n >>= (n & -n).bit_length() - 1
+    return n.bit_length() <= 53 and d.bit_length() < 900 and abs(x.numerator).bit_length() < 900
+
+
+def gen_exact(rng):
+    """Diagonal system on which EVERY floating-point operation of the solver is exact: h a power of two, k and b
+    multiples of 3 (so that the divisions by 3 are exact), A = m/h^2 + b/2h + k/3 a power of two, forces multiples of
+    3/8, a few steps.  -> spec (solver 'newmark', form 'diag')"""
+    n = int(rng.integers(1, 4))
+    e = int(rng.integers(0, 4))
+    h = 2.0 ** -e
+    nt = int(rng.integers(2, 7))
+    m, b, k = np.zeros(n), np.zeros(n), np.zeros(n)
+    for i in range(n):
+        b3 = int(rng.integers(0, 9)) / 4.0
+        k3 = int(rng.integers(0, 9)) / 4.0
+        base = 3 * b3 / (2 * h) + k3
+        A = 2.0 ** math.ceil(math.log2(max(base, 0.125))) * float(rng.choice([1, 1, 2, 4]))
+        if A <= base and rng.random() < 0.5:
+            A *= 2
+        m[i] = (A - base) * h * h  # 0 = massless row (then A = base must be a power of two: it is)
+        b[i], k[i] = 3 * b3, 3 * k3
+        if m[i] == 0 and base == 0:
+            m[i] = h * h
+    F = 3.0 * rng.integers(-8, 9, (n, nt)) / 8.0
+    d0 = rng.integers(-8, 9, n) / 4.0
+    v0 = rng.integers(-8, 9, n) / 4.0
+    return {"solver": "newmark", "h": h, "form": "diag", "tags": ["exact-dyadic"], "mnone": False, "m": m.tolist(),
+            "b": b.tolist(), "k": k.tolist(), "F": F.tolist(), "d0": d0.tolist(), "v0": v0.tolist(), "rf": None,
+            "terms": [], "nt": nt, "n": n, "layout": "C"}
+
+
+def _exact_history(m, b, k, h, F, d0, v0):
+    """the documented recurrence of one diagonal DOF in exact rational arithmetic, operation by operation as the code
+    orders them -> (d, v, a, representable) ; representable = every intermediate value is a double"""
+    from fractions import Fraction as Fr
+
+    ok = [True]
+
+    def c(x):
+        if not _dyadic_ok(x):
+            ok[0] = False
+        return x
+
+    m, b, k, h, d0, v0 = (Fr(x) for x in (m, b, k, h, d0, v0))
+    F = [Fr(x) for x in F]
+    nt = len(F)
+    sqh, h2 = c(h * h), c(2 * h)
+    mterm = c(m / sqh)
+    A = c(c(c(mterm + c(b / h2))) + c(k / 3))
+    A1 = c(c(2 * mterm) - c(k / 3))
+    A0 = c(c(c(b / h2) - c(k / 3)) - mterm)
+    a1, a0 = c(A1 / A), c(A0 / A)
+    f = [c(x / 3) for x in F]
+    um = c(d0 - c(v0 * h))
+    f[0] = c(c(c(k * d0) + c(b * v0)) / 3)
+    f = [c(x / A) for x in f]
+    fm = c(c(c(k * um) + c(b * v0)) / c(3 * A))
+    d = [d0, c(c(c(c(c(f[1] + f[0]) + fm) + c(a1 * d0))) + c(a0 * um))]
+    for j in range(2, nt):
+        d.append(c(c(c(c(f[j] + f[j - 1]) + f[j - 2]) + c(a1 * d[j - 1])) + c(a0 * d[j - 2])))
+    de = c(c(c(3 * f[-1]) + c(a1 * d[-1])) + c(a0 * d[-2]))
+    ext = [um] + d + [de]
+    v = [v0] + [c(c(ext[j + 2] - ext[j]) / h2) for j in range(1, nt)]
+    a = [c(c(c(ext[j + 2] - c(2 * ext[j + 1])) + ext[j]) / sqh) for j in range(nt)]
+    return d, v, a, ok[0]
+
+
+def _corr_exact(ctx):
+    """EXACT tie on dyadic inputs: cases on which no floating-point operation rounds (decided by an independent rational
+    evaluation, never by the implementation's output); there the Float model, the implementation and the rational
+    history must agree bit for bit."""
+    from fractions import Fraction as Fr
+
+    rng = ctx.np_rng(1731)
+    drv = ctx.driver("C17")
+    kept, req = [], []
+    for _ in range(ctx.pick(400, 3000)):
+        spec = gen_exact(rng)
+        n, nt, h = spec["n"], spec["nt"], spec["h"]
+        F = np.array(spec["F"])
+        ex = [_exact_history(spec["m"][i], spec["b"][i], spec["k"][i], h, F[i], spec["d0"][i], spec["v0"][i]) for i in range(n)]
+        if not all(e[3] for e in ex):
+            ctx.skip("exact: an intermediate value is not a double (mantissa overflow)")
+            continue
+        lines = _newmark_requests(spec)[1:]
+        kept.append((spec, ex, len(req)))
+        req += lines
+    rep = drv.ask(req)
+    for spec, ex, at in kept:
+        n, nt = spec["n"], spec["nt"]
+        impl = run_newmark(spec)
+        key = json.dumps(spec, sort_keys=True)
+        ctx.case(key, nontrivial=bool(np.any(impl.get("d", 0))), branch="newmark:exact-dyadic")
+        if "error" in impl:
+            ctx.disagree("newmark-exact", spec, impl["error"], "a history")
+            continue
+        for i in range(n):
+            g = _parse_hist(rep[at + i], 1, nt)
+            if isinstance(g, str):
+                ctx.disagree("newmark-exact", spec, "history", g[:40])
+                break
+            bad = None
+            for name, arr, exact in (("d", g[0][0], ex[i][0]), ("v", g[1][0], ex[i][1]), ("a", g[2][0], ex[i][2])):
+                for j in range(nt):
+                    vi, vm = float(impl[name][i, j]), float(arr[j])
+                    if not (Fr(vi) == exact[j] and Fr(vm) == exact[j]):
+                        bad = (name, j, vi, vm, float(exact[j]))
+                        break
+                if bad:
+                    break
+            if bad:
+                ctx.disagree("newmark-exact-" + bad[0], spec, {bad[0]: bad[2], "at": [i, bad[1]], "exact": bad[4]}, {bad[0]: bad[3]})
+                break
+
+
 def correspondence(ctx):
     _corr_newmark(ctx)
+    _corr_exact(ctx)
     _corr_cdf(ctx)
     _corr_halving(ctx)
     _corr_sequences(ctx)
